@@ -53,6 +53,7 @@ type Obligation struct {
 	Fn        string
 	Class     string // S, F, T, R, L, G, V(acuity)
 	Tags      []string
+	Ghost     bool // the clause mentions a ghost variable of the contract
 	Guard     Term
 	Goal      Term
 	NFacts    int
@@ -179,6 +180,11 @@ func (vc *FuncVC) oblige(class, detail string, guard, goal Term, tags []string, 
 	}
 	o := &Obligation{Name: vc.name + "/" + detail, Fn: vc.name, Class: class, Tags: tags, Guard: guard, Goal: goal,
 		NFacts: len(vc.facts), NDecls: len(vc.decls), Pos: vc.pos(pos), Src: src, gen: vc.Gen}
+	for _, g := range vc.fc.Ghosts {
+		if regexp.MustCompile(`\b` + regexp.QuoteMeta(g.Name) + `\b`).MatchString(src) {
+			o.Ghost = true
+		}
+	}
 	vc.obls = append(vc.obls, o)
 	return o
 }
